@@ -519,7 +519,12 @@ func yieldKind(site int32, kind uint8, allowFault bool) {
 	// An abort stays pending until the harness acknowledges it (TakeAborted):
 	// code between the fault and the harness may recover() the panic (fmt does
 	// for String/Error methods), so it is raised again at every later yield.
-	if allowFault && s.aborting[me] && s.noPreempt[me] == 0 {
+	// An injected abort is raised ONCE, like a real panic: deferred functions of
+	// the library run normally while it unwinds, and code that recovers it (fmt
+	// does, around String/Error methods) carries on. The operation is marked
+	// aborted all the same (TakeAborted) and has no result. Only the yield
+	// budget is sticky: an operation that does not terminate must be stopped.
+	if allowFault && s.opOver[me] && s.noPreempt[me] == 0 {
 		panic(Abort{me})
 	}
 	if s.opBudget[me] != 0 {
@@ -640,6 +645,20 @@ func TakeAborted() bool {
 	a := s.aborting[s.cur]
 	s.aborting[s.cur] = false
 	return a
+}
+
+// AbortNow injects an abort at a point chosen by the harness (inside its
+// io.Writer): same sticky semantics as a scheduled abort.
+//
+//go:norace
+func AbortNow() {
+	if !s.active {
+		return
+	}
+	me := s.cur
+	s.aborting[me] = true
+	logEv(EvAbort, me, -3, -3)
+	panic(Abort{me})
 }
 
 // NoPreempt brackets critical sections of library code (should an edit add
